@@ -267,14 +267,25 @@ class World:
     # iteration over everything
     def all_spaces(self, model=None):
         """Yield every space impl: static tree, then dynamic trees."""
+        # quiet observation: the raw containers are read (dict content is maintained eagerly),
+        # NOT their `.fresh` views -- asking for those would refresh modelx's lazily updated
+        # namespaces and could hide a missing notification
+        quiet = getattr(self, "quiet", False)
+
+        def kids(impl):
+            return dict.values(impl._named_spaces) if quiet else impl.named_spaces.values()
+
         def walk(impl):
             yield impl
-            for ch in impl.named_spaces.values():
+            for ch in list(kids(impl)):
                 yield from walk(ch)
             for it in list(impl.param_spaces.values()):
                 yield from walk(it)
-        for s in (model or self.m)._impl.named_spaces.values():
+        for s in list(kids((model or self.m)._impl)):
             yield from walk(s)
+
+    def cells_impls(self, s):
+        return list(dict.values(s._cells)) if getattr(self, "quiet", False) else list(s.cells.values())
 
     def held_inputs(self, model=None):
         """[[node, value]] of every user-assigned value, ItemSpaces included."""
@@ -370,7 +381,7 @@ class World:
 
     def sync(self):
         for s in self.all_spaces():
-            for c in s.cells.values():
+            for c in self.cells_impls(s):
                 self.rec.watch(c.formula.func.__code__)
 
     # ------------------------------------------------------------------
@@ -379,7 +390,7 @@ class World:
         data, inputs = [], []
         for s in self.all_spaces():
             p, st = self.enc_space(s)
-            for c in s.cells.values():
+            for c in self.cells_impls(s):
                 for k, v in c.data.items():
                     data.append([[p, st, c.name, [enc_val(x) for x in k]], enc_val(v)])
                 for k in c.input_keys:
@@ -407,10 +418,11 @@ class World:
         }
         sane, why = True, ""
         try:
-            mxsys._check_sanity()
-            for s in self.all_spaces():
-                for c in s.cells.values():
-                    c.check_sanity()
+            if not (getattr(self, "quiet", False) and not deep):
+                mxsys._check_sanity()
+                for s in self.all_spaces():
+                    for c in s.cells.values():
+                        c.check_sanity()
         except Exception as e:      # AssertionError, or the self-check itself crashing
             sane, why = False, type(e).__name__
         post["sane"] = sane
